@@ -1218,7 +1218,10 @@ class Store:
                 child.apply_defaults()
         else:
             if self.value is None:
-                self.value = self.default
+                # a value of its own: one default object serves every
+                # node declared from the same (sub-)schema, and updaters
+                # may work in place
+                self.value = copy.deepcopy(self.default)
 
     def add(self, added):
         key = added['key']
